@@ -564,6 +564,23 @@ class Runner:
                 km.default, km.default_deleted = cm.name, False
             return (f'Key.set_default_cert({Name.to_str(cm.name)})',
                     (lambda: w.kc[idname][Name.from_bytes(km.name)].set_default_cert(Name.from_bytes(cm.name))), None, upd)
+        if verb == 'setdef_stale':
+            # set_default_* with a name that is not in the owner's scope (never stored): the scope keeps its default
+            what = parts[2]
+            if what == 'id':
+                return ('set_default_identity(/never/stored)', (lambda: w.kc.set_default_identity(Name.from_str('/never/stored'))), None,
+                        lambda ret: None)
+            if idm is None:
+                return None
+            if what == 'key':
+                return (f'Identity({IDN[letter]}).set_default_key(<never stored>)',
+                        (lambda: w.kc[idname].set_default_key(idname + Name.from_str('/KEY/%DE%AD'))), None, lambda ret: None)
+            km = default_key()
+            if km is None:
+                return None
+            return ('Key.set_default_cert(<never stored>)',
+                    (lambda: w.kc[idname][Name.from_bytes(km.name)].set_default_cert(
+                        Name.from_bytes(km.name) + Name.from_str('/nobody/v=1'))), None, lambda ret: None)
         if verb in ('delcert', 'keydelcert'):
             which = parts[2] if len(parts) > 2 else 'default'
             km = default_key()
@@ -931,7 +948,8 @@ def run_case(case):
 # ---------------------------------------------------------------- cases
 BASIC = ('touch:a', 'touch:b', 'newkey:a', 'newkey:b', 'idnewkey:a', 'import:a', 'import:b', 'setdef_id:a', 'setdef_id:b',
          'setdef_key:a', 'setdef_cert:a', 'delcert:a:default', 'delcert:a:other', 'keydelcert:a:other', 'delkey:a:default',
-         'delkey:a:other', 'iddelkey:b:default', 'delid:a', 'delid:b', 'reopen')
+         'delkey:a:other', 'iddelkey:b:default', 'delid:a', 'delid:b', 'reopen',
+         'setdef_stale:a:id', 'setdef_stale:a:key', 'setdef_stale:a:cert')
 SIGNS = ('sign:default', 'sign:id:a', 'sign:idobj:b', 'sign:key:a', 'sign:keyobj:a', 'sign:keyloc:a', 'sign:keyloc2', 'sign:cert:a',
          'sign:certobj:a', 'sign:certname:a', 'sign:deadcert', 'sign:digest', 'sign:nosig', 'sign:id:b', 'sign:key:b')
 ALPHABET = BASIC + SIGNS
@@ -951,6 +969,9 @@ DIRECTED = (
     ['touch:a', 'touch:b', 'setdef_id:b', 'reopen', 'sign:default', 'delid:b', 'sign:default'],
     ['touch:a', 'import:a', 'import:a', 'keydelcert:a:other', 'delcert:a:other', 'sign:cert:a'],
     ['newkey:a', 'touch:a', 'delid:a', 'newkey:a', 'touch:a'],
+    ['touch:a', 'touch:b', 'setdef_stale:a:id', 'sign:default', 'reopen', 'sign:default'],
+    ['touch:a', 'newkey:a', 'setdef_stale:a:key', 'sign:id:a', 'reopen', 'sign:id:a'],
+    ['touch:a', 'import:a', 'setdef_stale:a:cert', 'sign:key:a', 'reopen', 'sign:key:a'],
 )
 
 
